@@ -173,7 +173,7 @@ pub fn property() -> Property {
         assumptions: &["reference apply() and legal(); push / set_outcome / set_auto_outcome respect the documented 'outcome must be unset' precondition"],
         subchecks: vec![SubCheck {
             name: "chain_histories",
-            driver: Driver::Generated { gen: gen_case, genome_len: 512, quick: 150_000, thorough: 3_000_000 },
+            driver: Driver::Generated { gen: gen_case, genome_len: 512, quick: 450_000, thorough: 3_600_000 },
             check: check_case,
             configs: Configs::Both,
             required: &[
@@ -186,7 +186,7 @@ pub fn property() -> Property {
         },
         SubCheck {
             name: "equality_transpositions",
-            driver: Driver::Generated { gen: crate::props::c05::gen_transposition_case, genome_len: 200, quick: 200_000, thorough: 4_000_000 },
+            driver: Driver::Generated { gen: crate::props::c05::gen_transposition_case, genome_len: 200, quick: 600_000, thorough: 4_800_000 },
             check: transposition_check,
             configs: Configs::ReleaseOnly,
             required: &["transposed_pair"],
